@@ -10,8 +10,8 @@
    model does ([orel]); for the functions that start from DisplayBuffer::default() this is
    an equation through [rn_dbuf_abs] (= DisplayBuffer::as_str). *)
 From Coq Require Import NArith Arith List Bool Lia.
-From AV Require Import Generated.Style Generated.Render Spec.Sgr Model.Base Model.Imp Model.Style Model.Render
-  Generated.RenderFn Proofs.ParamsSim Proofs.Render.
+From AV Require Import Generated.Style Generated.Render Spec.Sgr Spec.Io Model.Base Model.Imp Model.Style Model.Render
+  Generated.StyleFn Generated.RenderFn Proofs.ParamsSim Proofs.StreamIo Proofs.StyleGen Proofs.Render.
 Import ListNotations.
 Local Open Scope N_scope.
 
@@ -266,6 +266,9 @@ Definition gr_color_ul_buffer (c : color) : option rn_dbuf := gr_color_render_un
 Lemma bind_some_id {A} (x : option A) : (v <- (r <- x ;; Some r) ;; Some v) = x.
 Proof. destruct x; reflexivity. Qed.
 
+Lemma bind_some_id' {A} (x : option A) : (r <- x ;; Some r) = x.
+Proof. destruct x; reflexivity. Qed.
+
 (* the bytes a translated buffer shows: as_str of the result *)
 Definition gr_shown (x : option rn_dbuf) : option (list N) := d <- x ;; gr_as_str d.
 
@@ -302,3 +305,168 @@ Proof. apply gr_write_str_sim. Qed.
 Lemma translated_write_code (d : rn_dbuf) (b : rn_buf) (code : N) :
   dbuf_rel d b -> orel (gr_write_code d code) (rn_write_code b code).
 Proof. apply gr_write_code_sim. Qed.
+
+(* ==== the core::fmt side: Display impls, Style::fmt_to, render / render_reset ===================
+   A Formatter is the hand model's [rn_fmt] (text written so far, alternate flag, width / fill / align /
+   precision); a translated `fmt` answers the new formatter and the fmt::Result.  The hand model has
+   no Result (its sink never fails): [ok_fmt] is "the hand model's formatter, and Ok(())". *)
+
+Definition ok_fmt (x : option rn_fmt) : option (rn_fmt * (unit + unit)) := option_map (fun f => (f, inl tt)) x.
+
+(* impl Display for DisplayBuffer, on the buffer a translated builder returned *)
+Lemma gr_dbuf_fmt_shown x f : (d <- x ;; gr_dbuf_fmt d f) = ok_fmt (rn_fmt_buffer (gr_shown x) f).
+Proof.
+  destruct x as [d|]; [|reflexivity]. unfold gr_dbuf_fmt, gr_shown, rn_fmt_buffer.
+  destruct (gr_as_str d); reflexivity.
+Qed.
+
+(* impl Display for NullFormatter *)
+Lemma gr_null_fmt_eq s f : Some (gr_null_fmt s f) = ok_fmt (rn_fmt_null s f).
+Proof. reflexivity. Qed.
+
+(* impl Display for Reset, Reset::render *)
+Lemma gr_reset_fmt_eq f : Some (gr_reset_fmt (gr_reset_render tt) f) = ok_fmt (rn_fmt_null rn_reset_str f).
+Proof. reflexivity. Qed.
+
+(* Color::render_fg / render_bg / render_underline shown through Display *)
+Lemma gr_color_fmt_fg c f :
+  (d <- gr_color_render_fg (rn_color_view_of c) ;; gr_dbuf_fmt d f) = ok_fmt (rn_fmt_buffer (rn_color_fg_buffer c) f).
+Proof. rewrite gr_dbuf_fmt_shown. destruct (translated_buffers_are_model c) as (<- & _ & _). reflexivity. Qed.
+Lemma gr_color_fmt_bg c f :
+  (d <- gr_color_render_bg (rn_color_view_of c) ;; gr_dbuf_fmt d f) = ok_fmt (rn_fmt_buffer (rn_color_bg_buffer c) f).
+Proof. rewrite gr_dbuf_fmt_shown. destruct (translated_buffers_are_model c) as (_ & <- & _). reflexivity. Qed.
+Lemma gr_color_fmt_ul c f :
+  (d <- gr_color_render_underline (rn_color_view_of c) ;; gr_dbuf_fmt d f) = ok_fmt (rn_fmt_buffer (rn_color_ul_buffer c) f).
+Proof. rewrite gr_dbuf_fmt_shown. destruct (translated_buffers_are_model c) as (_ & _ & <-). reflexivity. Qed.
+
+(* impl Display for EffectsDisplay: the `for` over the translated index iterator (Generated/StyleFn.v,
+   drained: Proofs/StyleGen.v g_eff_index_iter_eq), one write_str per set effect *)
+Lemma gr_effects_fmt_eq e f : gr_effects_fmt e f = ok_fmt (rn_fmt_effects e f).
+Proof.
+  unfold gr_effects_fmt, rn_fmt_effects, effd_f0.
+  change (iter_drain g_eff_index_iter_next (S (length metadata)) (g_eff_index_iter e)) with (g_eff_index_iter_items e).
+  rewrite g_eff_index_iter_eq. destruct (e_index_iter e) as [l|]; [|reflexivity].
+  match goal with |- context [for_list ?F l f] => set (step := F) end.
+  assert (L : forall l f, for_list step l f =
+      option_map (fun f' => inl f') (rn_fmt_effects_loop l f) :> option (rn_fmt + rn_fmt * (unit + unit))).
+  { clear. induction l as [|i t IH]; intros f; [reflexivity|]. cbn [for_list rn_fmt_effects_loop].
+    unfold step at 1. destruct (aget metadata i) as [md|]; [|reflexivity].
+    cbv beta iota zeta. unfold rn_fw_write_str, md_escape. cbv beta iota zeta. apply IH. }
+  rewrite L. destruct (rn_fmt_effects_loop l f); reflexivity.
+Qed.
+
+(* one colour slot of Style::fmt_to: `if let Some(c) = self.slot { c.render_x().fmt(f)?; }`.  The slot the
+   hand model renders NEXT (the outermost [rn_fmt_buffer]: the inner ones are applied to bound variables) must
+   be the one the translated code renders next *)
+Ltac fmt_slot_with lem c f render buffer :=
+  let H := fresh "H" in
+  pose proof (lem c f) as H;
+  destruct (render (rn_color_view_of c)); [rewrite H|];
+  destruct (rn_fmt_buffer (buffer c) f); try discriminate H; try reflexivity; clear H;
+  cbn [ok_fmt option_map]; cbv beta iota zeta.
+Ltac fmt_slot :=
+  match goal with
+  | |- context [rn_fmt_buffer (rn_color_fg_buffer ?c) ?f] => fmt_slot_with gr_color_fmt_fg c f gr_color_render_fg rn_color_fg_buffer
+  | |- context [rn_fmt_buffer (rn_color_bg_buffer ?c) ?f] => fmt_slot_with gr_color_fmt_bg c f gr_color_render_bg rn_color_bg_buffer
+  | |- context [rn_fmt_buffer (rn_color_ul_buffer ?c) ?f] => fmt_slot_with gr_color_fmt_ul c f gr_color_render_underline rn_color_ul_buffer
+  end.
+
+Lemma gr_style_fmt_to_eq s f : gr_style_fmt_to s f = ok_fmt (rn_style_fmt_to s f).
+Proof.
+  unfold gr_style_fmt_to, rn_style_fmt_to, rn_fmt_order. cbn [rn_fmt_slots rn_fmt_slot].
+  rewrite g_eff_render_eq, gr_effects_fmt_eq.
+  destruct (rn_fmt_effects (st_eff s) f) as [f1|]; [|reflexivity]. cbn [ok_fmt option_map]. cbv beta iota zeta.
+  unfold rn_st_fg, rn_st_bg, rn_st_ul, rn_fmt_ocolor.
+  destruct (st_fg s) as [c1|], (st_bg s) as [c2|], (st_ul s) as [c3|]; cbn [option_map]; repeat fmt_slot; reflexivity.
+Qed.
+
+(* Style::render_reset: the NullFormatter's text *)
+Lemma gr_style_render_reset_eq s : gr_style_render_reset s = rn_render_reset s.
+Proof. unfold gr_style_render_reset, rn_render_reset, rn_nf_new. rewrite g_st_new_eq. reflexivity. Qed.
+
+(* impl Display for Style: `{:#}` is render_reset, anything else fmt_to *)
+Lemma gr_style_fmt_eq s f : gr_style_fmt s f = ok_fmt (rn_style_fmt s f).
+Proof.
+  unfold gr_style_fmt, rn_style_fmt. destruct (fm_alternate f).
+  - rewrite gr_style_render_reset_eq. reflexivity.
+  - rewrite gr_style_fmt_to_eq. destruct (rn_style_fmt_to s f); reflexivity.
+Qed.
+
+(* impl Display for StyleDisplay, on what Style::render returns *)
+Lemma gr_style_display_fmt_eq s f : gr_style_display_fmt (gr_style_render s) f = ok_fmt (rn_style_fmt_to s f).
+Proof.
+  unfold gr_style_display_fmt, gr_style_render, rn_sd_f0, rn_sd_new. rewrite gr_style_fmt_to_eq.
+  destruct (rn_style_fmt_to s f); reflexivity.
+Qed.
+
+(* ---- format!("{:<flags>}", x): a fresh String, the Display impl, the text; an Err from a Display impl
+   makes format! / to_string panic *)
+Definition gr_format (alternate : bool) (flags : rn_flags) (fmt : rn_fmt -> option (rn_fmt * (unit + unit))) : option (list N) :=
+  '(f, r) <- fmt (mkRnFmt alternate flags []) ;;
+  match r with inl _ => Some (fm_out f) | inr _ => None end.
+
+Lemma gr_format_ok alternate flags fmt hand :
+  (forall f, fmt f = ok_fmt (hand f)) -> gr_format alternate flags fmt = rn_format alternate flags hand.
+Proof.
+  intros H. unfold gr_format, rn_format. rewrite H. destruct (hand _); reflexivity.
+Qed.
+
+(* format!("{..}", style) *)
+Theorem translated_display_is_model alternate flags s :
+  gr_format alternate flags (gr_style_fmt s) = rn_display alternate flags s.
+Proof. apply gr_format_ok. intros f. apply gr_style_fmt_eq. Qed.
+
+(* format!("{..}", style.render()) *)
+Theorem translated_render_is_model alternate flags s :
+  gr_format alternate flags (gr_style_display_fmt (gr_style_render s)) = rn_display_render alternate flags s.
+Proof. apply gr_format_ok. intros f. apply gr_style_display_fmt_eq. Qed.
+
+(* style.render().to_string() *)
+Definition gr_render_style (s : style) : option (list N) :=
+  gr_format false rn_no_flags (gr_style_display_fmt (gr_style_render s)).
+
+Theorem translated_render_style_is_model s : gr_render_style s = rn_render_style s.
+Proof. apply translated_render_is_model. Qed.
+
+(* format!("{..}", style.render_reset()) *)
+Theorem translated_render_reset_is_model alternate flags s :
+  gr_format alternate flags (fun f => Some (gr_null_fmt (gr_style_render_reset s) f)) = rn_display_reset_of alternate flags s.
+Proof. apply gr_format_ok. intros f. rewrite gr_style_render_reset_eq. apply gr_null_fmt_eq. Qed.
+
+(* the other Display values: Effects::render, Color::render_fg / render_bg, AnsiColor::render_fg / render_bg
+   (a NullFormatter over as_fg_str / as_bg_str), Ansi256Color / RgbColor::render_fg / render_bg (their buffers),
+   Reset / Reset.render() *)
+Theorem translated_displays_are_model alternate flags :
+  (forall e, gr_format alternate flags (gr_effects_fmt (g_eff_render e)) = rn_display_effects alternate flags e) /\
+  (forall c, gr_format alternate flags (fun f => d <- gr_color_render_fg (rn_color_view_of c) ;; gr_dbuf_fmt d f)
+             = rn_display_color_fg alternate flags c) /\
+  (forall c, gr_format alternate flags (fun f => d <- gr_color_render_bg (rn_color_view_of c) ;; gr_dbuf_fmt d f)
+             = rn_display_color_bg alternate flags c) /\
+  (forall a, gr_format alternate flags (fun f => nf <- gr_ansi_render_fg a ;; Some (gr_null_fmt nf f))
+             = rn_display_ansi_fg alternate flags a) /\
+  (forall a, gr_format alternate flags (fun f => nf <- gr_ansi_render_bg a ;; Some (gr_null_fmt nf f))
+             = rn_display_ansi_bg alternate flags a) /\
+  gr_format alternate flags (fun f => Some (gr_reset_fmt (gr_reset_render tt) f)) = rn_display_reset alternate flags.
+Proof.
+  refine (conj _ (conj _ (conj _ (conj _ (conj _ _))))).
+  - intros e. apply gr_format_ok. intros f. rewrite g_eff_render_eq. apply gr_effects_fmt_eq.
+  - intros c. apply gr_format_ok. intros f. apply gr_color_fmt_fg.
+  - intros c. apply gr_format_ok. intros f. apply gr_color_fmt_bg.
+  - intros a. apply gr_format_ok. intros f. unfold gr_ansi_render_fg. rewrite gr_ansi_fg_str_eq. reflexivity.
+  - intros a. apply gr_format_ok. intros f. unfold gr_ansi_render_bg. rewrite gr_ansi_bg_str_eq. reflexivity.
+  - apply gr_format_ok. intros f. apply gr_reset_fmt_eq.
+Qed.
+
+(* Ansi256Color / RgbColor::render_fg / render_bg return the as_*_buffer value *)
+Theorem translated_color_renders_are_buffers :
+  (forall n, gr_shown (gr_a256_render_fg n) = rn_ansi256_fg_buffer n) /\
+  (forall n, gr_shown (gr_a256_render_bg n) = rn_ansi256_bg_buffer n) /\
+  (forall r g b, gr_shown (gr_rgb_render_fg (r, g, b)) = rn_rgb_fg_buffer r g b) /\
+  (forall r g b, gr_shown (gr_rgb_render_bg (r, g, b)) = rn_rgb_bg_buffer r g b).
+Proof.
+  refine (conj _ (conj _ (conj _ _))); intros.
+  - unfold gr_a256_render_fg. rewrite (bind_some_id' (gr_a256_fg_buffer n)). apply shown_of_sim, gr_a256_fg_sim.
+  - unfold gr_a256_render_bg. rewrite (bind_some_id' (gr_a256_bg_buffer n)). apply shown_of_sim, gr_a256_bg_sim.
+  - unfold gr_rgb_render_fg. rewrite (bind_some_id' (gr_rgb_fg_buffer (r, g, b))). apply shown_of_sim, gr_rgb_fg_sim.
+  - unfold gr_rgb_render_bg. rewrite (bind_some_id' (gr_rgb_bg_buffer (r, g, b))). apply shown_of_sim, gr_rgb_bg_sim.
+Qed.
